@@ -549,6 +549,19 @@ class SArr:
         return f"SArr#{self.id}(shape={self.shape}, {self.dtype.name}, {self.backend}, owner={set(self.owner)})"
 
 
+class SSeq:
+    """Sequence (list/generator result) of *symbolic* length n: item(i) gives the i-th value for an
+    integer term i with 0 <= i < n.  Produced by iterating an array whose leading extent is
+    symbolic, by enumerate/zip over such sequences and by comprehensions over them; consumed by
+    np.stack / np.array / len / max / min.  `template` is item(iota) for one generic index."""
+
+    def __init__(self, n, item, template=None, iota=None):
+        self.n, self.item, self.template, self.iota = n, item, template, iota
+
+    def __repr__(self):
+        return f"SSeq(n={self.n})"
+
+
 class Obj:
     """Instance of a /repo class: class info + field dict."""
     _ids = itertools.count()
